@@ -40,21 +40,24 @@ from .astutil import (TranslatorError, body_without_docstring, coq_str, find_fun
 
 NGLOB = "stepup/core/nglob.py"
 
+# Functions that are still tied by fingerprint + correspondence.  convert_nglob_to_glob,
+# _get_wildcard_name, NamedGlob._match_values / extend / reduce / will_change / files are no longer
+# here: translator/gen_nglob_code.py translates their statements into Gallina and
+# proofs/NglobCodeTie.v proves the result equal to the model.  Left, and why:
+#  - convert_nglob_to_regex: its constants, guards and the post-processing block are shape-matched
+#    above (translate_conv_regex); the fingerprint covers the remaining control flow (string-typed
+#    regex fragments manipulated as text cannot be translated without a regex parser in Coq);
+#  - iter_wildcard_names / has_anonymous_wildcards (generators over RE_ANY_WILD.split),
+#    NamedGlob._default_* (attrs defaults: one call each), NamedGlob.glob (compared verbatim above);
+#  - the two callers in workflow.py / startup.py (see translator/gen_nglob_batch.py when present).
 FINGERPRINTED = [
     ("conv_regex", NGLOB, "convert_nglob_to_regex", None),
-    ("conv_glob", NGLOB, "convert_nglob_to_glob", None),
-    ("get_wildcard_name", NGLOB, "_get_wildcard_name", None),
     ("iter_wildcard_names", NGLOB, "iter_wildcard_names", None),
     ("has_anonymous_wildcards", NGLOB, "has_anonymous_wildcards", None),
     ("default_used_names", NGLOB, "_default_used_names", "NamedGlob"),
     ("default_glob", NGLOB, "_default_glob", "NamedGlob"),
     ("default_regex", NGLOB, "_default_regex", "NamedGlob"),
-    ("match_values", NGLOB, "_match_values", "NamedGlob"),
-    ("extend", NGLOB, "extend", "NamedGlob"),
-    ("reduce", NGLOB, "reduce", "NamedGlob"),
     ("glob", NGLOB, "glob", "NamedGlob"),
-    ("will_change", NGLOB, "will_change", "NamedGlob"),
-    ("files", NGLOB, "files", "NamedGlob"),
     ("process_nglob_changes", "stepup/core/workflow.py", "process_nglob_changes", "Workflow"),
     ("rescan_nglobs", "stepup/core/startup.py", "rescan_nglobs", None),
 ]
